@@ -243,7 +243,6 @@ fn oracle(case: &Case, obs: &mut Obs) -> Result<(), Fail> {
 	}
 	let handle = Arc::new(handle);
 	let plans = Arc::new(plans);
-	type Bad = (usize, usize, Op, Res, Res);
 	let first_bad: Arc<std::sync::Mutex<Option<Bad>>> = Arc::new(std::sync::Mutex::new(None));
 	let wrong = Arc::new(std::sync::atomic::AtomicU64::new(0));
 	let done = Arc::new(std::sync::atomic::AtomicU64::new(0));
@@ -252,29 +251,127 @@ fn oracle(case: &Case, obs: &mut Obs) -> Result<(), Fail> {
 	// by this check; it is not waited for an hour either: no completed call for 180 s ends the run
 	// as a machinery problem (exit 2) that names the suspicion.
 	let finished = Arc::new(std::sync::atomic::AtomicBool::new(false));
+	let blocked: Arc<std::sync::Mutex<Option<String>>> = Arc::new(std::sync::Mutex::new(None));
+	// kernel thread ids of the threads that execute the callers of THIS case (other cases run in
+	// the same process at the same time)
+	let tids: Arc<std::sync::Mutex<Vec<i32>>> = Arc::new(std::sync::Mutex::new(vec![]));
+	let blocked_cv = Arc::new(std::sync::Condvar::new());
 	{
+		let blocked_cv = blocked_cv.clone();
 		let (done, finished, total_planned) = (done.clone(), finished.clone(), plans.iter().map(|p| p.len() as u64).sum::<u64>());
 		let what = format!("{:?} callers={} mode={:?}", match &case.subject { Subject::Raw { .. } => "raw file".to_string(), Subject::RawBig { .. } => "large raw file".to_string(), Subject::Container(l) => l.label() }, callers, case.mode);
+		let blocked = blocked.clone();
+		let tids = tids.clone();
 		std::thread::spawn(move || {
-			let mut last = (0u64, std::time::Instant::now());
+			// CPU time of the callers' threads in clock ticks (utime + stime of /proc/self/task/<tid>/stat)
+			let cpu_ticks = || -> u64 {
+				let list = tids.lock().unwrap().clone();
+				list.iter()
+					.map(|tid| {
+						std::fs::read_to_string(format!("/proc/self/task/{tid}/stat"))
+							.ok()
+							.and_then(|s| s.rsplit_once(')').map(|(_, r)| r.to_string()))
+							.map(|r| {
+								let f: Vec<&str> = r.split_whitespace().collect();
+								f.get(11).and_then(|v| v.parse::<u64>().ok()).unwrap_or(0) + f.get(12).and_then(|v| v.parse::<u64>().ok()).unwrap_or(0)
+							})
+							.unwrap_or(0)
+					})
+					.sum()
+			};
+			let mut last = (0u64, std::time::Instant::now(), cpu_ticks());
 			while !finished.load(std::sync::atomic::Ordering::Relaxed) {
 				std::thread::sleep(std::time::Duration::from_millis(500));
 				let d = done.load(std::sync::atomic::Ordering::Relaxed);
 				if d != last.0 {
-					last = (d, std::time::Instant::now());
+					last = (d, std::time::Instant::now(), cpu_ticks());
+				} else if d < total_planned && last.1.elapsed() > std::time::Duration::from_secs(90) && cpu_ticks().saturating_sub(last.2) < 50 {
+					// 90 s without a completed call AND the threads that execute the callers used less than half a
+					// second of CPU in that time: no caller is running or runnable, the files lie in memory
+					// (/dev/shm), the library uses neither timers nor the network: the callers wait for
+					// each other and nothing can wake them. Reported as a violation (a call that never
+					// returns does not return what it returns alone); the process is left at once.
+					*blocked.lock().unwrap() = Some(format!("{d} of {total_planned} calls completed, then none for 90 s while the callers' threads used {} ms of CPU ({what})", cpu_ticks().saturating_sub(last.2) * 10));
+					finished.store(true, std::sync::atomic::Ordering::Relaxed);
+					blocked_cv.notify_all();
+					return;
 				} else if d < total_planned && last.1.elapsed() > std::time::Duration::from_secs(180) {
 					vt::engine::die(&format!("C13: no call completed for 180 s ({d} of {total_planned} done; {what}): the callers block each other for good or the machine is stalled; not a verdict"));
 				}
 			}
 		});
 	}
-	let result = vt::guard(|| match case.mode {
+	// the callers run on a thread of their own: if they block each other for good, the oracle
+	// still returns (the blocked threads are abandoned; the check process ends after the verdict)
+	let (tx, rx) = std::sync::mpsc::channel();
+	let case2 = case.clone();
+	let (handle2, plans2, first_bad2, wrong2, done2, tids2) = (handle.clone(), plans.clone(), first_bad.clone(), wrong.clone(), done.clone(), tids.clone());
+	std::thread::spawn(move || {
+		let (case, handle, plans, first_bad, wrong, done) = (&case2, handle2, plans2, first_bad2, wrong2, done2);
+		let callers = case.callers as usize;
+		let r = run_callers(case, callers, handle, plans, first_bad, wrong, done, tids2);
+		let _ = tx.send(r);
+	});
+	let result = loop {
+		match rx.recv_timeout(std::time::Duration::from_millis(200)) {
+			Ok(r) => break r,
+			Err(_) => {
+				if let Some(why) = blocked.lock().unwrap().take() {
+					return Err(Fail::new("concurrent:callers-block-each-other", format!("concurrent calls on one reader never return: {why}")));
+				}
+			}
+		}
+	};
+	let _ = &blocked_cv;
+	finished.store(true, std::sync::atomic::Ordering::Relaxed);
+	match result {
+		Ok(Ok(())) => {}
+		Ok(Err(())) => return Err(Fail::new("concurrent:caller-panicked", "a caller panicked during concurrent reads")),
+		Err(p) => return Err(Fail::from_panic("concurrent reads", &p)),
+	}
+	let total = done.load(std::sync::atomic::Ordering::Relaxed);
+	let bad = wrong.load(std::sync::atomic::Ordering::Relaxed);
+	obs.count("calls", total);
+	obs.label(format!("mode:{:?}", case.mode));
+	obs.label(match callers { 2..=3 => "callers=2..3", 4..=8 => "callers=4..8", _ => "callers=9..16" });
+	obs.nontrivial(callers >= 2 && plans.iter().filter(|p| p.len() >= 50 || matches!(case.subject, Subject::RawBig { .. })).count() >= 2);
+	if let Some((t, i, op, got, want)) = first_bad.lock().unwrap().take() {
+		let show = |r: &Res| match r {
+			Res::Bytes(b) => format!("{} bytes ({})", b.len(), util::hex_short(b)),
+			Res::Tiles(v) => format!("{} tiles", v.len()),
+			other => format!("{other:?}"),
+		};
+		return Err(Fail::new(
+			"concurrent:result-differs-from-sequential",
+			format!("{bad} of {total} concurrent calls returned something else than the sequential result; first: caller {t} call {i} {op:?}: got {}, expected {}", show(&got), show(&want)),
+		));
+	}
+	Ok(())
+}
+
+type Bad = (usize, usize, Op, Res, Res);
+
+#[allow(clippy::too_many_arguments)]
+fn run_callers(
+	case: &Case,
+	callers: usize,
+	handle: Arc<Handle>,
+	plans: Arc<Vec<Vec<(Op, Res)>>>,
+	first_bad: Arc<std::sync::Mutex<Option<Bad>>>,
+	wrong: Arc<std::sync::atomic::AtomicU64>,
+	done: Arc<std::sync::atomic::AtomicU64>,
+	tids: Arc<std::sync::Mutex<Vec<i32>>>,
+) -> Result<Result<(), ()>, vt::engine::PanicInfo> {
+	let note_tid = move || tids.lock().unwrap().push(unsafe { libc::gettid() });
+	vt::guard(|| match case.mode {
 		Mode::Threads => {
 			let barrier = Arc::new(std::sync::Barrier::new(callers));
 			let mut hs = vec![];
 			for t in 0..callers {
 				let (handle, plans, barrier, first_bad, wrong, done) = (handle.clone(), plans.clone(), barrier.clone(), first_bad.clone(), wrong.clone(), done.clone());
+				let note_tid = note_tid.clone();
 				hs.push(std::thread::spawn(move || {
+					note_tid();
 					let rt = tokio::runtime::Builder::new_current_thread().build().unwrap();
 					barrier.wait();
 					rt.block_on(async {
@@ -298,7 +395,8 @@ fn oracle(case: &Case, obs: &mut Obs) -> Result<(), Fail> {
 			Ok::<(), ()>(())
 		}
 		Mode::Tasks => {
-			let rt = tokio::runtime::Builder::new_multi_thread().worker_threads(callers.min(16)).build().unwrap();
+			let note = note_tid.clone();
+			let rt = tokio::runtime::Builder::new_multi_thread().worker_threads(callers.min(16)).on_thread_start(move || note()).build().unwrap();
 			rt.block_on(async {
 				let barrier = Arc::new(tokio::sync::Barrier::new(callers));
 				let mut hs = vec![];
@@ -328,31 +426,7 @@ fn oracle(case: &Case, obs: &mut Obs) -> Result<(), Fail> {
 				Ok::<(), ()>(())
 			})
 		}
-	});
-	finished.store(true, std::sync::atomic::Ordering::Relaxed);
-	match result {
-		Ok(Ok(())) => {}
-		Ok(Err(())) => return Err(Fail::new("concurrent:caller-panicked", "a caller panicked during concurrent reads")),
-		Err(p) => return Err(Fail::from_panic("concurrent reads", &p)),
-	}
-	let total = done.load(std::sync::atomic::Ordering::Relaxed);
-	let bad = wrong.load(std::sync::atomic::Ordering::Relaxed);
-	obs.count("calls", total);
-	obs.label(format!("mode:{:?}", case.mode));
-	obs.label(match callers { 2..=3 => "callers=2..3", 4..=8 => "callers=4..8", _ => "callers=9..16" });
-	obs.nontrivial(callers >= 2 && plans.iter().filter(|p| p.len() >= 50 || matches!(case.subject, Subject::RawBig { .. })).count() >= 2);
-	if let Some((t, i, op, got, want)) = first_bad.lock().unwrap().take() {
-		let show = |r: &Res| match r {
-			Res::Bytes(b) => format!("{} bytes ({})", b.len(), util::hex_short(b)),
-			Res::Tiles(v) => format!("{} tiles", v.len()),
-			other => format!("{other:?}"),
-		};
-		return Err(Fail::new(
-			"concurrent:result-differs-from-sequential",
-			format!("{bad} of {total} concurrent calls returned something else than the sequential result; first: caller {t} call {i} {op:?}: got {}, expected {}", show(&got), show(&want)),
-		));
-	}
-	Ok(())
+	})
 }
 
 fn main() {
